@@ -807,6 +807,38 @@ func runHistCase(o *Out, ci int, hc *histCase, nops int, distinct map[string]boo
 			}
 		}
 	}
+	// a FROM-stop expression (its value at a stop is the fee of the stop in FRONT of it: a property of the route, not of
+	// the stop) behind a maximum that never binds — what a solution stores per stop for it must be the copy's own
+	var feeExpr nextroute.FromStopExpression
+	if uc != nil && hc.Seed%4 < 2 {
+		feeExpr = nextroute.NewFromStopExpression("departure-fee", 0)
+		for i, st := range bt.model.Stops() {
+			feeExpr.SetValue(st, float64(1+i%7))
+		}
+		if mx, e := nextroute.NewMaximum(feeExpr, nextroute.NewVehicleTypeValueExpression("fee-limit", 1e12)); e == nil {
+			if e := bt.model.AddConstraint(mx); e != nil {
+				feeExpr = nil
+			} else {
+				o.Count("from-stop-expression-registered")
+			}
+		} else {
+			feeExpr = nil
+		}
+	}
+	feeDigest := func(s nextroute.Solution) string {
+		if feeExpr == nil || s == nil {
+			return ""
+		}
+		var sb strings.Builder
+		for _, v := range s.Vehicles() {
+			for _, st := range v.SolutionStops() {
+				fmt.Fprintf(&sb, "%d=%g/%g ", st.ModelStop().Index(), st.Value(feeExpr), st.CumulativeValue(feeExpr))
+			}
+			sb.WriteString("| ")
+		}
+		return sb.String()
+	}
+	shadowFee := ""
 	forbid := &forbidState{}
 	fc := ucForbid{st: forbid, temporal: hc.Seed%2 == 0}
 	fo := ucObjective{id: new(int)}
@@ -1715,12 +1747,16 @@ func runHistCase(o *Out, ci int, hc *histCase, nops int, distinct map[string]boo
 				collLine = ""
 				before = sa // both sides moved on together
 			}
+			if fa, fb := feeDigest(sol), feeDigest(cp); fa != fb {
+				violate("C11", "copy-differs-from-original", "expression-values", "from-stop expression values / cumulative values: original "+fa+" copy "+fb)
+			}
 			if rng.Intn(2) == 0 {
 				shadow, shadowSnap = sol, before
 				sol = cp
 			} else {
 				shadow, shadowSnap = cp, before
 			}
+			shadowFee = feeDigest(shadow)
 		default: // solution check
 			opDesc = "check"
 			verb := []string{"low", "medium", "high"}[rng.Intn(3)]
@@ -1800,6 +1836,10 @@ func runHistCase(o *Out, ci int, hc *histCase, nops int, distinct map[string]boo
 			}
 		}
 		if shadow != nil {
+			if f := feeDigest(shadow); f != shadowFee {
+				violate("C11", "operation-on-one-side-changed-the-other", opDesc+"|expression-values", "from-stop expression values of the untouched solution: "+shadowFee+" -> "+f)
+				shadowFee = f
+			}
 			if s := snapOf(b, shadow); !snapSame(s, shadowSnap) {
 				violate("C11", "operation-on-one-side-changed-the-other", opDesc, diffSnap(shadowSnap, s))
 				shadowSnap = s
@@ -2181,7 +2221,7 @@ func estCorrespondence(o *Out, rec *recorder, mv nextroute.SolutionMoveStops, v 
 		}
 		for _, sp := range sps {
 			x := 1.0 // not a per-stop expression: the unit always has an effect
-			if _, isStop := e.(nextroute.StopExpression); isStop {
+			if isToStopExpression(e) {
 				x = e.Value(nil, nil, sp.Stop().ModelStop())
 			}
 			delta += x
@@ -2189,7 +2229,7 @@ func estCorrespondence(o *Out, rec *recorder, mv nextroute.SolutionMoveStops, v 
 				noEffect = false
 			}
 		}
-		_, isStopExpr := e.(nextroute.StopExpression)
+		isStopExpr := isToStopExpression(e)
 		regime := "general"
 		switch {
 		case isStopExpr && !e.HasNegativeValues() && noEffect:
@@ -2558,4 +2598,14 @@ func canBePlannedSomewhere(sol nextroute.Solution, idx int) int {
 		}
 	}
 	return 0
+}
+
+// isToStopExpression: a per-stop expression whose value at a stop is a property of THAT stop. (A FromStopExpression has
+// the same method set as a StopExpression — a type assertion cannot tell them apart; the library's own test of this
+// kind was defect E45.)
+func isToStopExpression(e nextroute.ModelExpression) bool {
+	if _, ok := e.(nextroute.StopExpression); !ok {
+		return false
+	}
+	return !strings.Contains(fmt.Sprintf("%T", e), "fromExpression")
 }
